@@ -52,6 +52,11 @@ def programs():
     out["for-in-macro"] = pre + [("macrodef", "rep", ["n"], [("for", "k", "0", "n", [R(".db k")])]), ("call", "rep", [("expr", "b")]), ("call", "rep", [("expr", "2")])] + post
     out["if-on-loop-var"] = pre + [("for", "i", "0", "b2", [("if", "i & 1", [R(".db 1")], [R(".db 2")])])] + post
     out["for-bound-from-outer-var"] = pre + [("for", "i", "0", "a2", [("for", "j", "i", "b2", [R(".db j")])])] + post
+    out["for-some-iterations-empty"] = pre + [("for", "i", "0", "4", [("if", "i & 1", [R(".db i")], None)]), R("after:"), R(".dl after")] + post
+    out["for-empty-iterations-then-macro"] = pre + [("macrodef", "mm", ["q"], [R("ml:"), R(".db q"), R(".dl ml")]), ("for", "i", "0", "b2", [("if", "i - 1", [R(".db i")], None)]), ("call", "mm", [("expr", "v")]), ("block", [R("bl:"), R(".dl bl")])] + post
+    out["for-body-only-assign"] = pre + [("for", "i", "0", "3", [R("t := i")]), ("block", [R("bl:"), R(".dw v"), R(".dl bl")])] + post
+    out["for-nested-inner-empty"] = pre + [("for", "i", "0", "3", [("for", "j", "0", "i - 1", [R(".db j")])]), ("scope", "ns", [R("sl:"), R(".db v")]), R(".dl ns.sl")] + post
+    out["if-false-without-else-then-scopes"] = pre + [("block", [("if", "c", [R(".db 1")], None)]), ("block", [R("bl:"), R(".dl bl")])] + post
     out["for-in-if"] = pre + [("if", "c", [("for", "i", "0", "b2", [R(".db i")])], [R(".db 7")])] + post
     out["for-empty-then-code"] = pre + [("for", "i", "3", "b2", [R(".db i")]), R(".db 0x55")] + post
     return out
